@@ -36,17 +36,14 @@ UnvisitedSite(ownerKind, site) ==
 RECURSIVE Chain(_, _, _, _, _)
 Chain(u, f, r, kind, stack) ==
    LET tf == TargetFile(f, r)
-       k  == IF r.frag = <<>> \/ r.frag[1] = "#inl" THEN kind ELSE r.frag[1]
-       nm == IF r.frag = <<>> \/ r.frag[1] = "#inl" THEN "" ELSE r.frag[2]
+       k  == FragKind(r, kind)
+       nm == FragName(r)
        i  == SlotAt(u, tf, k, nm)
    IN
-   IF r.frag # <<>> /\ r.frag[1] = "#pathinl"
-   THEN LET j == SlotAt(u, tf, "pathItems", r.frag[2]) IN
-        (IF j = 0 \/ ~IsConcrete(u.slots[j].c) \/ InlAt(u.slots[j].c, r.frag[3]) = "" THEN [v |-> -1, hops |-> <<>>]
-         ELSE [v |-> j, hops |-> <<Entry(f, r, kind)>>, inl |-> InlAt(u.slots[j].c, r.frag[3])])
-   ELSE IF r.frag # <<>> /\ r.frag[1] = "#inl"
-   THEN (IF i = 0 \/ ~IsConcrete(u.slots[i].c) \/ InlAt(u.slots[i].c, r.frag[2]) = "" THEN [v |-> -1, hops |-> <<>>]
-         ELSE [v |-> i, hops |-> <<Entry(f, r, kind)>>, inl |-> InlAt(u.slots[i].c, r.frag[2])])
+   IF IsInlFrag(r)
+   THEN LET j == InlSlot(u, tf, r, kind) IN
+        (IF j = 0 \/ ~IsConcrete(u.slots[j].c) \/ InlAt(u.slots[j].c, InlSite(r)) = "" THEN [v |-> -1, hops |-> <<>>]
+         ELSE [v |-> j, hops |-> <<Entry(f, r, kind)>>, inl |-> InlAt(u.slots[j].c, InlSite(r))])
    ELSE IF k # kind \/ i = 0 THEN [v |-> -1, hops |-> <<>>]
    ELSE IF IsConcrete(u.slots[i].c) THEN [v |-> i, hops |-> <<Entry(f, r, kind)>>]
    ELSE LET r2 == u.slots[i].c.ref IN
@@ -90,7 +87,7 @@ KindOrder == <<"headers", "parameters", "requestBodies", "responses", "schemas",
              \o (IF LoaderVisitsAll THEN <<"links">> ELSE <<>>)
 
 (* the root's own component entries of one kind, names sorted; "U" is the root's own reference when it sits in components *)
-NameOrder == <<"A", "Acc", "B", "C", "L", "Rec", "U", "V", "W", "X", "Y">>
+NameOrder == <<"A", "Acc", "B", "C", "Cat", "Dog", "H", "L", "Pet", "Rec", "U", "V", "W", "X", "Y", "Z", "e", "p", "schema">>     \* (sorted as sort.Strings does)
 RootEntries(u, pos, kind) ==
    LET named == {u.slots[i].name : i \in {i \in DOMAIN u.slots : u.slots[i].file = Root /\ u.slots[i].kind = kind}}
                 \cup (IF pos = "comp" /\ u.use.kind = kind THEN {"U"} ELSE {})
